@@ -7,6 +7,8 @@ package utils
 // the explicit shim import: the slot type must match.
 
 import (
+	"fmt"
+
 	atomic "verif/shim/vatomic"
 )
 
@@ -20,4 +22,10 @@ func (w *WaterMark) VerifSetWindow(base uint64, size int) {
 func (w *WaterMark) VerifInit(size int) {
 	w.waiters = make(map[uint64]chan struct{}, 8)
 	w.window.Store(&watermarkWindow{base: 1, slots: make([]atomic.Int32, size)})
+}
+
+// VerifWindowString renders done-until, last index and the window position.
+func (w *WaterMark) VerifWindowString() string {
+	win := w.loadWindow()
+	return fmt.Sprintf("{done=%d last=%d base=%d size=%d}", w.DoneUntil(), w.LastIndex(), win.base, len(win.slots))
 }
